@@ -43,7 +43,7 @@ def run(ctx):
             if i < 3:
                 ctx.sample({"program": prog})
         # spec -> code: every session TLC explores on the look-ahead part of the model's universe (design-level clauses checked there)
-        progs, kw, sessions, _ = speccode.explore(ctx, focus="C09", part=speccode.part_of(ctx, 3 if quick else 4))
+        progs, kw, sessions, _ = speccode.explore(ctx, focus="C09", part=speccode.part_of(ctx, 12 if quick else 8))
         speccode.drive(camp, progs, kw, sessions)
         vs = camp.validate()
         campaign.judge(ctx, camp, vs, conformance=lambda v, m: campaign.kind_of(v) in KINDS and
